@@ -288,9 +288,21 @@ class DictReader:
                 # Make sure to always use the correct odml format attribute name
                 doc_attrs[odmlfmt.Document.map(attr)] = self.parsed_doc[i]
 
-        doc = odmlfmt.Document.create(**doc_attrs)
+        doc = odmlfmt.Document.create()
+        try:
+            doc = odmlfmt.Document.create(**doc_attrs)
+        except Exception as exc:
+            msg = "Document not created (%s)\n  %s" % (doc_attrs, str(exc))
+            self.error(msg)
+
         for sec in doc_secs:
-            doc.append(sec)
+            # A Section can be refused, e.g. when a sibling with the
+            # same name has already been added.
+            try:
+                doc.append(sec)
+            except Exception as exc:
+                msg = "Section not added (%s)\n  %s" % (sec, str(exc))
+                self.error(msg)
 
         return doc
 
